@@ -28,6 +28,15 @@ CLAIMS = {
           'Batch==single, list==individual, NDData==arrays, sky==to_pixel are checked on the implementation only (probe, no theorem).',
   'note': 'Trusted: Lean kernel + 3 standard axioms; translator for get_overlap_slices; hand model tied by differential testing only; sqrt, WCS, float summation order not modelled.',
  },
+ 'C03': {
+  'design_ref': 'DESIGN.md §5 C03',
+  'technique': 'Lean 4 theorems for the index / coordinate mechanisms (bounding boxes and overlap slices regenerated from the source, render window, centre of mass, central moments, local-maximum test) under zero-padded embedding and transposition + correspondence of the moment model + metamorphic sweep of every listed API',
+  'text': 'Proved in Lean: translating float extents by integers translates the integer bounding box exactly and exchanging x/y transposes it (fromFloat_translate, fromFloat_transpose - definitions regenerated from bounding_box.py); for a box inside the original frame the overlap slices on a larger canvas are the original ones shifted and the cut-out slices are unchanged (overlap_translate, overlap_transpose); '
+          'the rendering window of a stamp inside the frame moves by exactly the offset (window1_translate); any weighted raster sum over the zero-padded canvas equals the same sum over the original frame with shifted coordinates (Raster.embed_sum, transpose_sum), hence the centre of mass moves by exactly (dx,dy) and x/y exchange under transposition (com_translate, com_transpose) and every central moment is translation invariant and mu_ij <-> mu_ji under transposition, i.e. theta -> 90deg - theta (moment_translate, moment_transpose); '
+          'a pixel whose footprint lies inside the original frame is a neighbourhood maximum of the embedded image iff it is one of the original (nbhdMax_translate). [partial] the per-API relations (aperture photometry/statistics, detect/deblend, SourceCatalog, find_peaks, star finders, centroid functions, profiles, rendering) are decided by metamorphic probes on the implementation, for footprints inside the frame. '
+          'Tie: Gen/BBox.lean regenerated each run; _moments_central vs the Lean moment model on original / embedded / transposed rasters; the other models are tied by C01, C02, C14, C17, C18.',
+  'note': 'Trusted: Lean kernel + standard axioms; translator for bounding_box.py; hand models tied by differential testing; optimiser-based centroids compared at 2e-4.',
+ },
  'C04': {
   'design_ref': 'DESIGN.md §5 C04',
   'technique': 'Lean 4 correctness proof of an independent connected-component labelling model (min-index propagation) + exhaustive/random correspondence with detect_sources',
